@@ -298,6 +298,10 @@ impl Property for C13 {
             }
         }
         let m = model_with(&entries, glob_rt.as_ref(), observed.as_ref(), &layers_rt);
+        if let Some(msg) = unsound_tree_verdict(&entries, &layers_rt) {
+            return Err(format!("{} [tree {:?}]", msg, case.tree.nodes.iter().map(|n| n.path.as_str()).collect::<Vec<_>>()));
+        }
+        st.count("negation_tree_verdicts_validated");
         // tripwires
         let unprivileged = unsafe { libc::geteuid() } != 0;
         let mut armed = 0;
